@@ -288,6 +288,10 @@ def cost (s : SpecDesc) (m : Mapping Nat) : Option Cost :=
 
 def Cost.fits (c : Cost) : Bool := c.usage.all (fun u => decide (u ≤ 1))
 
+/-- Strictly within capacity: no memory is filled exactly.  (Used to delimit a defect of the real mapper, whose
+float32 capacity check `usage <= 1` rejects some mappings that fill a memory exactly: see `Props/C01.lean`.) -/
+def Cost.fitsStrict (c : Cost) : Bool := c.usage.all (fun u => decide (u < 1))
+
 inductive Metric | energy | latency | edp
   deriving DecidableEq, Repr
 
@@ -302,6 +306,10 @@ def validCosts (s : SpecDesc) (ms : List (Mapping Nat)) : List Cost :=
     | some c => if c.fits then some c else none
     | none => none)
 
+/-- Costs of the members that leave every memory strictly below its size. -/
+def validCostsStrict (s : SpecDesc) (ms : List (Mapping Nat)) : List Cost :=
+  (validCosts s ms).filter Cost.fitsStrict
+
 /-- Minimum of a rational-valued function (`none` on the empty list). -/
 def minQ {α : Type} (g : α → Rat) : List α → Option Rat
   | [] => none
@@ -311,6 +319,9 @@ def minQ {α : Type} (g : α → Rat) : List α → Option Rat
 
 /-- **`refBest`**: the best value of a metric over every valid mapping of the mapspace. -/
 def refBest (metric : Metric) (s : SpecDesc) : Option Rat := minQ metric.eval (validCosts s (all s))
+
+/-- The optimum over the mappings that fill no memory exactly. -/
+def refBestStrict (metric : Metric) (s : SpecDesc) : Option Rat := minQ metric.eval (validCostsStrict s (all s))
 
 /-- Exact scaling of a rational to an integer: `q · D`, `none` if that is not an integer. -/
 def scaleQ (D : Nat) (q : Rat) : Option Int :=
